@@ -69,6 +69,8 @@ CASES = {
         "nul-insert-path": ("file name with a NUL character (atheris campaign)", err("\tinsert_file /a<0>b/\n", ["io-error"])),
         "link-cycle-self-symbol": ("repr of a self-referential symbol in the link-base cycle message (atheris campaign)", err("\t.link 1000 + . - y\ny = y\n", ["recursive-definition"])),
         "non-ascii-digit-9": ("str.isdigit() digit that int(s, 8) rejects (atheris campaign)", err("\tmov r1, r2\u0d6f\n", [])),
+        "angle-code-overflow": ("chr() OverflowError (reported by a sub-agent while seeding)", err("\tinsert_file /zz/ <20000000000000>\n", ["value-out-of-bounds"])),
+        "caret-r-kelvin": ("U+212A matched the case-insensitive ^R regex (reported by a sub-agent while seeding)", err("\t.word ^R\u212a\n", [])),
         "superscript-digit": ("str.isdigit() character that int() rejects", err("\t.word 1\u00b2\n", [])),
     },
     "C03": {
@@ -80,6 +82,11 @@ CASES = {
                                         "expect": {"kind": "ok", "base": None, "code": "05"}}),
         "own-label-after-use": ("F12 with a leading .link", {"kind": "expect", "tree": {"a.mac": "\t.link 2000\nq1::\tnop\n\t.word q1\n", "b.mac": "\t.word q1\nq1:\tnop\n"},
                                                             "mains": ["a.mac", "b.mac"], "charset": "bk", "expect": {"kind": "ok", "base": 0o2000, "code": w(0o240, 0o2000, 0o2006, 0o240)}}),
+    },
+    "C15": {
+        "rad50-dotless-i": ("str.upper() folds U+0131 into 'I'", err("\t.rad50 /a\u0131b/\n", ["invalid-character"])),
+        "rad50-ligature-st": ("str.upper() gives 'ST', str.index() found it as a substring", err("\t.rad50 /\ufb06/\n", ["invalid-character"])),
+        "rad50-long-s": ("U+017F", err("\t.rad50 /\u017f/\n", ["invalid-character"])),
     },
     "C13": {
         "checksum-257-ff": ("F4", {"kind": "format", "fmt": "bk_wav", "base": 0o1000, "image": (b"\xff" * 257).hex(), "name": b"F4".ljust(16).hex()}),
